@@ -15,7 +15,7 @@ from __future__ import annotations
 import z3
 
 from .arrays import FArr, MV, SymBuf, IntS, _dt, iterm, s_len
-from .core import Ctx, SBool, SInt, Unsupported, s_min, term, wrap
+from .core import NumpyFallback, Ctx, SBool, SInt, Unsupported, s_min, term, wrap
 
 S = z3.Function("S", IntS, IntS)          # stream byte model
 W2 = z3.Function("W2", IntS, IntS, IntS)  # 2 bytes -> uint16 value (np.frombuffer/fromfile, trusted)
@@ -216,7 +216,7 @@ class CArr(list):
         return [x <= o for x in self]
 
 
-class NPfile:
+class NPfile(metaclass=NumpyFallback):
     """numpy names used by io/fileio.py and io/sigproc.StreamInfo (trusted stubs)."""
     import numpy as _np
     uint8 = _np.uint8
